@@ -80,12 +80,11 @@ structure Waiter where
   left : Bool
   deriving Repr, DecidableEq
 
-/-- a queued wake-up request (`WakeupRequest`): pop `key` of database `db` for `conn` -/
+/-- work a transaction leaves for its end: serve the waiters of `key` in database `db` (`pushed_keys`), or — `none` — of every
+    key of database `db` (`swept_dbs`) -/
 structure Wake where
-  conn : Nat
   db : Nat
-  key : Bytes
-  left : Bool
+  key : Option Bytes
   deriving Repr, DecidableEq
 
 structure State where
@@ -100,6 +99,7 @@ structure State where
   cfgDeferExecWakes : Bool := false -- wake-ups requested by queued pushes are carried out after the whole EXEC
   cfgNotifyOnce : Bool := false     -- one notification per push command instead of one per pushed element
   cfgNoticeHangup : Bool := false   -- the server notices that a blocked client went away and drops its registrations
+  cfgSweepAfterScript : Bool := false -- after EVAL/EVALSHA/RENAME/RENAMENX every key with a waiter and an element is served
 
 /-- upper-cased command name, computed exactly as `KS.step` does -/
 def nameOf (cmd : List Bytes) : String :=
@@ -204,47 +204,73 @@ def doBpop (q : Quirks) (st : State) (c now : Nat) (inExec left : Bool) (args : 
 def firstWaiter (ws : List Waiter) (db : Nat) (k : Bytes) : Option Waiter :=
   ws.find? fun w => w.db == db && w.keys.contains k
 
-/-- `notify_key_ready(db, key)`: the first waiter of that key IN THAT DATABASE's registry leaves the registry and a
-    wake-up request carrying that database is queued -/
-def notify (st : State) (db : Nat) (k : Bytes) : State :=
-  match firstWaiter st.waiting db k with
-  | none => st
-  | some w => { st with waiting := st.waiting.filter (fun x => x.conn != w.conn),
-                        wakes := st.wakes ++ [{ conn := w.conn, db := w.db, key := k, left := w.left }] }
+/-- `serve_key(db, key)` (= `notify_key_ready` + `wake_client`, repeated): while the registry OF THAT DATABASE has a waiter
+    on the key and the list has an element, the head waiter leaves the registry (all its keys), the element is popped on the
+    database the waiter was registered in, and delivered.  The first argument bounds the number of clients served
+    (one per pushed element / per waiter). -/
+def serveKey (q : Quirks) (now db : Nat) (k : Bytes) : Nat → State → State
+  | 0, st => st
+  | f + 1, st =>
+    match firstWaiter st.waiting db k with
+    | none => st
+    | some x =>
+      let r := access q st { db := x.db, sel := x.db, conn := x.conn, path := .served, now := now, cmd := popCmd x.left k, obs := none }
+      match r.2 with
+      | .bulk v =>
+        serveKey q now db k f
+          { updConn r.1 x.conn (fun y => { y with blocked := false }) with
+              waiting := r.1.waiting.filter (fun y => y.conn != x.conn),
+              outbox := r.1.outbox ++ [(x.conn, .array [.bulk k, .bulk v])] }
+      | _ => r.1                                 -- no element (or not a list): nobody is served
 
-/-- `process_wakeups`/`wake_client`: pop on the database carried by the request; a value is delivered to the blocked client -/
-def serve (q : Quirks) (now : Nat) : State → List Wake → List (Nat × Frame) → State × List (Nat × Frame)
-  | st, [], out => (st, out)
-  | st, wk :: rest, out =>
-    let r := access q st { db := wk.db, sel := wk.db, conn := wk.conn, path := .served, now := now,
-                           cmd := popCmd wk.left wk.key, obs := none }
-    match r.2 with
-    | .bulk v => serve q now (updConn r.1 wk.conn fun x => { x with blocked := false }) rest
-                   (out ++ [(wk.conn, .array [.bulk wk.key, .bulk v])])
-    | _ => serve q now r.1 rest out            -- nothing left to pop: the client stays blocked (C13's business)
+/-- `blocked_keys(db)`: the keys of that database's registry, sorted -/
+def blockedKeys (st : State) (db : Nat) : List Bytes :=
+  sortBytes (dedup ((st.waiting.filter fun x => x.db == db).flatMap fun x => x.keys))
 
-def processWakes (q : Quirks) (now : Nat) (st : State) : State × List (Nat × Frame) :=
-  serve q now { st with wakes := [] } st.wakes []
+def sweepKeys (q : Quirks) (now db : Nat) : List Bytes → State → State
+  | [], st => st
+  | k :: ks, st => sweepKeys q now db ks (serveKey q now db k (st.waiting.length + 1) st)
 
-/-- one wake-up per pushed element while clients are waiting on the key (since 9571d7e; `notify` without a waiter does nothing) -/
-def notifyN : Nat → State → Nat → Bytes → State
-  | 0, st, _, _ => st
-  | n + 1, st, db, k => notifyN n (notify st db k) db k
+/-- after a script or a RENAME (which can make a list appear under a key without LPUSH/RPUSH; since f24849a): every key of
+    the database that has both a waiter and an element is served -/
+def sweepDb (q : Quirks) (now db : Nat) (st : State) : State := sweepKeys q now db (blockedKeys st db) st
 
-/-- LPUSH/RPUSH: the push, the notifications, and — since 64dea68 — the wake-ups they requested are carried out at once, at the
-    end of this very command (`process_normal_command`), before the next queued command of an EXEC or anybody else can pop -/
+/-- what a transaction leaves to be done once it is over (`handle_exec`: `pushed_keys`, then `swept_dbs`) -/
+def servePushed (q : Quirks) (now : Nat) : List Wake → State → State
+  | [], st => st
+  | wk :: r, st =>
+    servePushed q now r (match wk.key with
+      | some k => serveKey q now wk.db k (st.waiting.length + 1) st
+      | none => st)
+
+def serveSwept (q : Quirks) (now : Nat) : List Wake → State → State
+  | [], st => st
+  | wk :: r, st =>
+    serveSwept q now r (match wk.key with
+      | some _ => st
+      | none => sweepDb q now wk.db st)
+
+def processWakes (q : Quirks) (now : Nat) (st : State) : State :=
+  serveSwept q now st.wakes (servePushed q now st.wakes { st with wakes := [] })
+
+/-- LPUSH/RPUSH: the push; the clients blocked on the key IN THE DATABASE PUSHED TO are served at the end of this very command
+    (64dea68) — or, for a push run by EXEC, once the transaction is over (629f564, `cfgDeferExecWakes`) -/
 def doPush (q : Quirks) (st : State) (c now : Nat) (path : Path) (cmd : List Bytes) : State × Frame :=
   let r := access q st { db := (st.conns c).db, sel := (st.conns c).db, conn := c, path := path, now := now, cmd := cmd, obs := none }
   match r.2, cmd with
-  | .int n, _ :: k :: v :: vs =>
+  | .int n, _ :: k :: _ :: _ =>
     if n > 0 then
-      let st1 := notifyN (if st.cfgNotifyOnce then 1 else (v :: vs).length) r.1 (st.conns c).db k
-      if st.cfgDeferExecWakes && path == .exec then (st1, r.2)          -- served by `exec` after the whole transaction
-      else
-        let y := processWakes q now st1
-        ({ y.1 with outbox := y.1.outbox ++ y.2 }, r.2)
+      if st.cfgDeferExecWakes && path == .exec then
+        ({ r.1 with wakes := r.1.wakes ++ [{ db := (st.conns c).db, key := some k }] }, r.2)
+      else (serveKey q now (st.conns c).db k (if st.cfgNotifyOnce then 1 else r.1.waiting.length + 1) r.1, r.2)
     else r
   | _, _ => r
+
+/-- after a script / RENAME / RENAMENX ran on database `db`: sweep now, or leave it to the end of the transaction -/
+def afterSweep (q : Quirks) (st : State) (now db : Nat) (inExec : Bool) : State :=
+  if !st.cfgSweepAfterScript then st
+  else if inExec then { st with wakes := st.wakes ++ [{ db := db, key := none }] }
+  else sweepDb q now db st
 
 /-! ### Dispatch (`process_normal_command`), EXEC, and a client request (`process_frame`) -/
 
@@ -253,7 +279,7 @@ def dispatch (w : Switches) (q : Quirks) (st : State) (c now : Nat) (inExec : Bo
   match r with
   | .script sha cmds =>
     let x := runScript w q c (st.conns c).db sha now st cmds nil
-    (x.1, some x.2)
+    (afterSweep q x.1 now (st.conns c).db inExec, some x.2)
   | .plain [] _ => (st, some err)
   | .plain (n :: args) obs =>
     let name := nameOf (n :: args)
@@ -268,7 +294,8 @@ def dispatch (w : Switches) (q : Quirks) (st : State) (c now : Nat) (inExec : Bo
     else
       let x := access q st { db := (st.conns c).db, sel := (st.conns c).db, conn := c,
                              path := (if inExec then .exec else .direct), now := now, cmd := n :: args, obs := obs }
-      (x.1, some x.2)
+      if name = "RENAME" ∨ name = "RENAMENX" then (afterSweep q x.1 now (st.conns c).db inExec, some x.2)
+      else (x.1, some x.2)
 
 def execQueue (w : Switches) (q : Quirks) (c now : Nat) : State → List Req → State × List Frame
   | st, [] => (st, [])
@@ -300,13 +327,13 @@ def exec (w : Switches) (q : Quirks) (st : State) (now c : Nat) (r : Req) : Stat
     if !(st.conns c).inMulti then (st, ⟨some err, []⟩) else
     let x := execQueue w q c now (updConn st c fun x => { x with inMulti := false, queue := [] }) (st.conns c).queue
     let y := processWakes q now x.1
-    ({ y.1 with outbox := [] }, ⟨some (.array x.2), y.1.outbox ++ y.2⟩)
+    ({ y with outbox := [] }, ⟨some (.array x.2), y.outbox⟩)
   else if (st.conns c).inMulti then
     (updConn st c fun x => { x with queue := x.queue ++ [r] }, ⟨some queued, []⟩)
   else
     let x := dispatch w q st c now false r
     let y := processWakes q now x.1
-    ({ y.1 with outbox := [] }, ⟨x.2, y.1.outbox ++ y.2⟩)
+    ({ y with outbox := [] }, ⟨x.2, y.outbox⟩)
 
 /-! ### What happens to a blocked client without a push: its time-out fires, or it goes away -/
 
